@@ -31,7 +31,7 @@ STRLIT_SAFE = {
 def _literal_sites(ctx):
     """(fn, call, value expr) for SimpleString / FormattedStringText constructions and .with_changes(value=..) on them."""
     out = []
-    for fn in ctx.prog.functions.values():
+    for fn in ctx.prog.live_functions():
         if not fn.module.name.startswith(("core_codemods.", "codemodder.codemods", "codemodder.utils", "codemodder.dependency_management")):
             continue
         if fn.module.name.startswith("core_codemods.refactor"):
@@ -134,7 +134,7 @@ def rule_comma_tail(ctx, rep):
         min_instances=2,
     )
     n = 0
-    for fn in ctx.prog.functions.values():
+    for fn in ctx.prog.live_functions():
         if fn.cls is None or not ("import" in fn.name.lower()):
             continue
         r = ctx.resolver(fn)
@@ -177,7 +177,7 @@ def rule_bare_genexp(ctx, rep):
         min_instances=1,
     )
     n = 0
-    for fn in ctx.prog.functions.values():
+    for fn in ctx.prog.live_functions():
         if not fn.module.name.startswith(("core_codemods.", "codemodder.codemods")):
             continue
         r = ctx.resolver(fn)
